@@ -6,6 +6,7 @@ package interp
 import (
 	"fmt"
 	"math/big"
+	"regexp"
 	"strings"
 )
 
@@ -179,6 +180,13 @@ func ev(t *Term, env evalEnv) ModelVal {
 			return mvInt(big.NewInt(-1))
 		}
 		return mvInt(big.NewInt(int64(k) + from.Int64()))
+	case "str.in_re":
+		if t.re != "" {
+			ok, err := regexp.MatchString(t.re, evStr(t.args[0], env))
+			if err == nil {
+				return mvBool(ok)
+			}
+		}
 	case "str.<":
 		return mvBool(evStr(t.args[0], env) < evStr(t.args[1], env))
 	case "str.<=":
